@@ -86,6 +86,9 @@ type c15Result struct {
 // Transfer.In consume them.
 func c15Run(w *core.W, q *dns.Msg, envs [][]*model.Rec, tsig bool, f c15Fault, rcodeAt int) c15Result {
 	cl, sv := netsim.StreamPair()
+	if len(envs)%2 == 0 {
+		cl.CloseDelay = 2 * time.Millisecond // closing takes a while: "channel closed" must still imply "connection closed"
+	}
 	tr := &dns.Transfer{Conn: &dns.Conn{Conn: cl}, ReadTimeout: 3 * time.Second}
 	secretB64 := base64.StdEncoding.EncodeToString(c15Secret)
 	if tsig {
@@ -217,6 +220,7 @@ func c15Run(w *core.W, q *dns.Msg, envs [][]*model.Rec, tsig bool, f c15Fault, r
 			res.envelopes++
 		}
 		res.closedCh = true
+		res.connCloses = cl.Closes() // at the very moment the consumer learns that the transfer is over
 	}()
 	select {
 	case <-done:
@@ -225,7 +229,6 @@ func c15Run(w *core.W, q *dns.Msg, envs [][]*model.Rec, tsig bool, f c15Fault, r
 		sv.Close()
 		<-done
 	}
-	res.connCloses = cl.Closes()
 	sv.Close()
 	return res
 }
